@@ -507,7 +507,8 @@ func TransformJSONProtoToDSL(model *openfgav1.AuthorizationModel, opts ...Transf
 	}
 
 	typeDefinitions := []string{}
-	typeDefs := model.GetTypeDefinitions()
+	// a copy: the list is sorted below for modular models and the caller's model must stay untouched
+	typeDefs := slices.Clone(model.GetTypeDefinitions())
 	isModularModel := false
 
 	for index := 0; index < len(typeDefs); index++ {
